@@ -31,9 +31,29 @@ for n in (0, 1, 2, 3, 4):
             timeout=1500, mem_gb=12, shape={"text_bytes": n, "cursor": p, "alphabet": ALPH}, replay="c07_text",
             contract_stubs=["scan_number / scan_identifier_or_keyword / scan_string -> cursor advances to a later boundary (their guarantee, 7.b-7.d)"])
 
+DG = "diagnostics.rs"
+for n, tier in ((0, "quick"), (1, "quick"), (2, "quick"), (3, "quick"), (4, "quick"), (5, "thorough")):
+    nm = "line_col_n%d" % n
+    add(nm, "7.f", "line_col_step!(%s, %d, %d);" % (nm, n, n + 4), file=DG, tier=tier, timeout=1200, mem_gb=10,
+        shape={"text_bytes": n, "position": "any boundary 0..N", "alphabet": ALPH + " incl. CR, LF, CRLF, tab"})
+for n, tier in ((1, "quick"), (2, "quick"), (3, "quick"), (4, "thorough")):
+    nm = "tabs_n%d" % n
+    add(nm, "7.f", "tabs_step!(%s, %d, %d);" % (nm, n, 4 * n + 3), file=DG, tier=tier, timeout=1200, mem_gb=10,
+        shape={"text_bytes": n, "alphabet": ALPH + " incl. tab"})
+
+FA = "facts.rs"
+for nl in (0, 1, 2, 3):
+    for owner in (0, 1):
+        nm = "local_range_nl%d_o%d" % (nl, owner)
+        add(nm, "7.g", "local_range_step!(%s, %d, %d);" % (nm, nl, owner), file=FA, timeout=900, mem_gb=10,
+            tier="quick" if nl in (0, 2) else "thorough",
+            input_class="interleaved-owners" if nl >= 2 else "any",
+            shape={"functions": 2, "locals_so_far": nl, "owner": owner, "ranges": "any disjoint ranges inside the locals table",
+                   "step": "one push_param"}, replay="c07_local_range")
+
 PROP = Property(
     "C07",
-    anchors={SC: "src/syntax/scanner.rs"},
+    anchors={SC: "src/syntax/scanner.rs", DG: "src/diagnostics.rs", FA: "src/analysis/facts.rs"},
     obligations=[
         O("7.a", "helper routines keep the cursor invariant from any cursor", ["syntax::scanner::Lexer::skip_whitespace",
           "syntax::scanner::Lexer::skip_comment", "syntax::scanner::Lexer::read_word", "syntax::scanner::Lexer::try_consume_word",
@@ -43,6 +63,13 @@ PROP = Property(
         O("7.c", "scan_identifier_or_keyword incl. multi-word look-ahead and rollback", ["syntax::scanner::Lexer::scan_identifier_or_keyword"], "N<=3"),
         O("7.d", "scan_string incl. escapes and unterminated forms", ["syntax::scanner::Lexer::scan_string"], "N<=3 (+N=4 cursor 0)"),
         O("7.e", "next_token dispatcher: token span, progress, non-ASCII branch", ["syntax::scanner::Lexer::next_token"], "N<=2 (3 thorough)"),
+        O("7.f", "building blocks of the diagnostic renderer are total for every in-bounds boundary position: line/column computation (with the facts its slice expressions rely on), tab expansion, visual column",
+          ["diagnostics::Diagnostics::line_col_from_span", "diagnostics::Diagnostics::compute_line_starts",
+           "diagnostics::Diagnostics::expand_tabs", "diagnostics::Diagnostics::visual_col"],
+          "texts of N<=4 (5 thorough) bytes incl. CR/LF/CRLF/tab/2-byte characters; render_diagnostic as a whole did not fit (drop glue of its temporary vectors) and is outside the claim"),
+        O("7.g", "indexing contract of the static checker: every local a function owns lies inside ProgramFacts::local_range(function) (one inductive step of push_param/push_local_decl)",
+          ["analysis::facts::ProgramFacts::push_param", "analysis::facts::ProgramFacts::push_local_with_kind", "analysis::facts::ProgramFacts::local_range"],
+          "two functions, <= 3 earlier locals, any disjoint ranges"),
     ],
     harnesses=hs,
     assumptions=[
